@@ -67,7 +67,7 @@ func cloneQuery(q *spec.Query) *spec.Query {
 
 var c14Suffixes = func() [][]string {
 	var out [][]string
-	fs := []string{"twice", "nostr"}
+	fs := []string{"twice", "pick"}
 	gs := []string{"count", "sum"}
 	var rec func(prefix []string, n int)
 	rec = func(prefix []string, n int) {
